@@ -865,3 +865,83 @@ func init() {
 	register(&Scenario{Name: "close-during-connection-burst", Prop: "C10", Horizon: time.Hour, Weight: 60, Run: c10CloseDuringBurst})
 	register(&Scenario{Name: "close-during-connection-burst-lifecycle", Prop: "C13", Horizon: time.Hour, Weight: 15, Run: c10CloseDuringBurst})
 }
+
+// c10ClosedWithOptions: "later calls fail with a closed error" whatever
+// non-default options the socket (or context) was given before it was closed -
+// fail-no-peers, best effort, deadlines, queue lengths change which checks a
+// Send or Recv makes first; none of them comes before "closed".
+func c10ClosedWithOptions(w *W) {
+	kind := allKinds[w.Choose(simrt.SShape, len(allKinds))]
+	useCtx := hasContexts(kind) && w.Choose(simrt.SShape, 2) == 0
+	w.SetShape("kind", kind)
+	w.SetShape("ctx", useCtx)
+	mn := w.UseMsgNet()
+	s := w.Sock(kind)
+	defer s.Close()
+	var obj ioObj = s
+	var ctx mangos.Context
+	if useCtx {
+		c, err := s.OpenContext()
+		if err != nil {
+			w.Failf("HARNESS/ctx", "%v", err)
+			return
+		}
+		ctx = c
+		obj = c.(ioObj)
+	}
+	var set []string
+	for _, o := range []struct {
+		n string
+		v interface{}
+	}{{mangos.OptionFailNoPeers, true}, {mangos.OptionBestEffort, true}, {mangos.OptionSendDeadline, time.Millisecond}, {mangos.OptionRecvDeadline, time.Millisecond}, {mangos.OptionWriteQLen, 0}, {mangos.OptionReadQLen, 0}} {
+		if w.Choose(simrt.SShape, 2) == 0 && obj.SetOption(o.n, o.v) == nil {
+			set = append(set, o.n)
+		}
+	}
+	w.SetShape("options", fmt.Sprint(set))
+	if w.Choose(simrt.SShape, 2) == 0 {
+		// (a peer that has been there and left)
+		addr := w.Addr("msg")
+		if w.ListenOn(s, addr) == nil {
+			if p := mn.Connect(addr); p != nil {
+				w.Settle()
+				p.ClosePeer()
+				w.Settle()
+			}
+		}
+	}
+	what := "socket"
+	if ctx != nil && w.Choose(simrt.SShape, 2) == 0 {
+		what = "context"
+		w.Here("Context.Close", func() (interface{}, error) { return nil, ctx.Close() })
+	} else {
+		w.Here("Socket.Close", func() (interface{}, error) { return nil, s.Close() })
+	}
+	w.Settle()
+	for i := 0; i < 3; i++ {
+		for _, c := range []*Call{
+			w.Do("Send(after close)", func() (interface{}, error) {
+				if obj == ioObj(s) {
+					return nil, SendBody(s, kind, []byte("x"))
+				}
+				return nil, obj.Send([]byte("x"))
+			}),
+			w.Do("Recv(after close)", func() (interface{}, error) { return obj.Recv() }),
+		} {
+			w.Settle()
+			if !c.Returned() {
+				w.Failf("C10/call-blocks-after-close:"+strings.SplitN(c.Label, "(", 2)[0], "%s on a closed %s %s (options set before: %v) did not return at once", c.Label, kind, what, set)
+				return
+			}
+			if !closedOK(c.Err) && !(what == "context" && c.Err == mangos.ErrProtoState) {
+				w.Failf("C10/call-succeeds-after-close:"+strings.SplitN(c.Label, "(", 2)[0]+":"+kind+":"+what, "%s on a closed %s %s (options set before: %v) returned %v", c.Label, kind, what, set, errName(c.Err))
+				return
+			}
+		}
+	}
+	w.Probe("closed-with-non-default-options")
+}
+
+func init() {
+	register(&Scenario{Name: "closed-socket-calls-with-options-set", Prop: "C10", Horizon: time.Hour, Weight: 20, Run: c10ClosedWithOptions})
+}
